@@ -164,4 +164,12 @@ package ice
 //@   opt nosafety
 //@   loop 1 invariant cleaned-entries-come-from-the-list: len(sanitized) <= rangeindex + 1 && rangeindex + 1 <= len(ips)
 //@   ensures an-empty-external-list-is-a-valid-rule: len(ips) == 0 ==> result1 == nil && len(result0) == 0
+//@   ghostvar sawBadIP bool = false
+//@   ghostvar sawSlash bool = false
+//@   site call validateIPString#1 assert validates-the-trimmed-entry: arg0 == trimmed
+//@   site call validateIPString#1 ghost sawBadIP := sawBadIP || result2 != nil
+//@   site call Contains#1 assert looks-for-a-cidr-slash-in-the-trimmed-entry: arg0 == trimmed && arg1 == "/"
+//@   site call Contains#1 ghost sawSlash := sawSlash || result
+//@   loop 1 invariant no-bad-entry-passed-so-far: !sawBadIP && !sawSlash
+//@   ensures an-entry-that-is-not-an-ip-or-carries-a-prefix-length-rejects-the-rule: sawBadIP || sawSlash ==> result1 != nil
 //@   ensures never-more-entries-than-given: result1 == nil ==> len(result0) <= len(ips)
